@@ -2,7 +2,9 @@
 #include "../common/engine.hpp"
 #include "../common/tape.hpp"
 
+#ifdef _OPENMP
 extern "C" int omp_get_num_procs(void) { return 64; }
+#endif
 
 namespace vf {
 using SegFn = CaseResult (*)(const RunCtx &, TapeReader &, unsigned size_hint);
